@@ -2363,6 +2363,63 @@ def flatnonzero(a):
     return where(asarray(a).flatten() if not isinstance(a, ndarray) else a.flatten())[0]
 
 
+def ravel(a, order="C"):
+    a = a if isinstance(a, ndarray) else asarray(a)
+    return a.ravel()
+
+
+def _index_list(x, what):
+    """concrete python ints of an index-like value (LazyIdx over decided conditions, int array, list); symbolic positions are
+    concretised (forks per feasible value)"""
+    if isinstance(x, LazyIdx):
+        out = []
+        for i, c in enumerate(x.cond.a.flat):
+            if bool(c):
+                out.append(i + x.shift)
+        return out
+    x = x if isinstance(x, ndarray) else asarray(x)
+    if x._dt.kind not in "iub":
+        raise Unsupported(f"{what} on non-integer values")
+    return [int(v) for v in x.a.flat]
+
+
+def union1d(a, b):
+    return asarray(_np.union1d(_np.array(_index_list(a, "np.union1d"), dtype="int64"),
+                               _np.array(_index_list(b, "np.union1d"), dtype="int64")))
+
+
+def intersect1d(a, b):
+    return asarray(_np.intersect1d(_np.array(_index_list(a, "np.intersect1d"), dtype="int64"),
+                                   _np.array(_index_list(b, "np.intersect1d"), dtype="int64")))
+
+
+def setdiff1d(a, b):
+    return asarray(_np.setdiff1d(_np.array(_index_list(a, "np.setdiff1d"), dtype="int64"),
+                                 _np.array(_index_list(b, "np.setdiff1d"), dtype="int64")))
+
+
+def put(a, ind, v, mode="raise"):
+    if not isinstance(a, ndarray):
+        raise TypeError("argument 1 must be numpy.ndarray")
+    if mode != "raise":
+        raise Unsupported("np.put mode")
+    idx = _index_list(ind, "np.put") if not isinstance(ind, int) else [ind]
+    vals = v if isinstance(v, ndarray) else asarray(v)
+    vals = list((vals._data_arr() if vals._is_masked else vals).a.flat)
+    n = a.a.size
+    for i in idx:
+        if i < -n or i >= n:
+            raise IndexError(f"index {i} is out of bounds for axis 0 with size {n}")
+    if not vals:
+        if idx:
+            raise Unsupported("np.put with no values")
+        return None
+    flat = a.reshape(-1) if a.a.ndim != 1 else a
+    for k, i in enumerate(idx):
+        flat[i] = vals[k % len(vals)]
+    return None
+
+
 def append(arr, values, axis=None):
     return concatenate([atleast_1d(arr).flatten(), atleast_1d(values).flatten()])
 
